@@ -47,13 +47,29 @@ def length(ex, v):
 
 
 def normalize(ex, v):
+  # warp/native: a zero vector normalises to the zero vector, a zero quaternion to the identity
+  # quaternion in warp's (x, y, z, w) layout, i.e. components (0, 0, 0, 1) (audited natively)
+  zero = [0.0] * v.n
+  if v.tag in ("quat", "quatf") and v.n == 4:
+    zero = [0.0, 0.0, 0.0, 1.0]
   l = length(ex, v)
   if is_conc(l):
     if l > 0:
       return Vec(v.shape, [ex.ar.binop(DIV, c, l) for c in v.comps], "float", v.tag)
-    return Vec(v.shape, [0.0] * v.n, "float", v.tag)
-  pos = lift(l) > 0
-  return Vec(v.shape, [ite(pos, ex.ar.binop(DIV, lift(c, "float"), l), 0.0) for c in v.comps], "float", v.tag)
+    return Vec(v.shape, zero, "float", v.tag)
+  # division-free encoding: r is a fresh vector with  l > 0 -> r_i * l == v_i  (determines r uniquely),
+  # l <= 0 -> r == zero; the consequence |r|^2 == 1 (from l*l == |v|^2) is stated as well to spare
+  # the nonlinear solver from rediscovering it
+  n = next(ex.fresh_ctr)
+  r = [z3.Real(f"normalize!{n}.{i}") for i in range(v.n)]
+  lz = lift(l)
+  vs = [lift(c, "float") for c in v.comps]
+  pos = lz > 0
+  # explicit form r_i == v_i * inv with inv * l == 1 (the solver can then eliminate r_i), plus the products r_i * l == v_i
+  inv = z3.Real(f"normalize!{n}.inv")
+  ex.assume(z3.Implies(pos, z3.And(*([inv * lz == 1] + [ri == vi * inv for ri, vi in zip(r, vs)] + [ri * lz == vi for ri, vi in zip(r, vs)] + [sum((ri * ri for ri in r), z3.RealVal(0)) == 1]))))
+  ex.assume(z3.Implies(z3.Not(pos), z3.And(*[ri == z for ri, z in zip(r, zero)])))
+  return Vec(v.shape, r, "float", v.tag)
 
 
 def _minmax(ex, a, b, is_min):
@@ -82,7 +98,7 @@ def _abs(ex, a):
 def _trig_axioms(ex, x):
   s = uf("sin", z3.RealSort(), z3.RealSort())(x)
   c = uf("cos", z3.RealSort(), z3.RealSort())(x)
-  ex.assume(z3.And(s * s + c * c == 1, s >= -1, s <= 1, c >= -1, c <= 1))
+  ex.assume(z3.And(s * s + c * c == 1, s >= -1, s <= 1, c >= -1, c <= 1, z3.Implies(x == 0, z3.And(s == 0, c == 1))))
   return s, c
 
 
